@@ -23,7 +23,7 @@ RULE = ("tensor-product spaces (dims 1-3, mixed degrees 0-6, non-uniform and rep
         "or derivative order >= 2; distinct by SHA-1 of the spec")
 ASSUMPTIONS = ["exact rational integrals of products of piecewise polynomials (vp/ref/bspl.py pp_basis) are the reference for the "
                "1D routines; Kronecker products of them for the tensor-product matrices",
-               "fast (ACA) assemblers: entrywise error bound c*tol*max(1, max|A|) with c = 50 calibrated on the unchanged tree; "
+               "fast (ACA) assemblers: entrywise error bound c*tol*max(1, max|A|) with c = 10 calibrated on the unchanged tree; "
                "libc rand() is seeded per case with a Hypothesis-drawn value"]
 EPS = np.finfo(float).eps
 
@@ -98,7 +98,7 @@ def check_biform(spec, ctx):
         if du == dv == 0 and w is None:
             M = ctx.sut(assemble.bsp_mass_1d, kv1, what="bsp_mass_1d").toarray()
             ctx.close("mass_1d", M, ref, rtol=1e-11, atol=0, scale=np.max(np.abs(ref)))
-            ctx.close("mass_symmetric", M, M.T, rtol=0, atol=1e-15 * np.max(np.abs(M)))
+            ctx.close("mass_symmetric", M, M.T, rtol=0, atol=1e-14 * np.max(np.abs(M)))
             try:
                 np.linalg.cholesky(M)
             except np.linalg.LinAlgError:
@@ -379,9 +379,10 @@ def check_fast(spec, ctx):
     reason = "skipcount" if "Skipped" in log else ("tolerance" if "tolerance reached" in log else ("maxiter" if "Maximum iteration" in log else "unknown"))
     A = A.toarray()
     ctx.require("fast_shape", A.shape == exact.shape, "shape")
-    bound = 50.0 * tol * max(1.0, float(np.max(np.abs(exact))))
+    bound = 10.0 * tol * max(1.0, float(np.max(np.abs(exact))))
     err = float(np.max(np.abs(A - exact)))
-    ctx.ratio("fast_error_over_bound[%s]" % reason, err / bound)
+    if reason != "skipcount":
+        ctx.ratio("fast_error_over_bound[%s]" % reason, err / bound)
     if err > bound:
         raise Violation("fast_assembler_accuracy", "%s_fast: max entrywise error %.3g > %.3g (tol=%g, stop reason: %s)"
                         % (which, err, bound, tol, reason), stop_reason=reason)
@@ -413,7 +414,7 @@ SUBCHECKS = [
     Sub("load", check_load, strategy=lambda tier: strat_load(), quick=400, thorough=8000, floor=30,
         rule="inner_products / integrate / load_vector of polynomial data vs exact rational integrals; affine geometries"),
     Sub("fast", check_fast, strategy=lambda tier: strat_fast(), quick=300, thorough=6000, isolate=True, floor=30,
-        rule="mass_fast / stiffness_fast vs standard assembly: entrywise error <= 50*tol*max(1, max|A|)"),
+        rule="mass_fast / stiffness_fast vs standard assembly: entrywise error <= 10*tol*max(1, max|A|)"),
 ]
 SHARED_CACHE = True
 KNOWN = {"fast_assemble_skipcount_heuristic": _known_skip}
